@@ -9,8 +9,30 @@ import os
 import re
 import subprocess
 
+import importlib
+
 from .. import ktrans, ctrans, ftrans
 from ..common import LEAN_DIR, REPO
+
+# further translators (one module each, same interface: write(repo) -> (ok, msg), THEOREMS, COVERS), the generated file
+# and the proof file that states `generated = model`; a module that is not present yet is skipped
+EXTRA = [("vtrans", "VAT", "VATSpec"), ("dtrans", "Dual", "DualSpec"), ("ttrans", "Topo", "TopoSpec"),
+         ("itrans", "ICVI", "ICVISpec"), ("ptrans", "Prep", "PrepSpec"), ("rtrans", "Falcon", "FalconSpec"),
+         ("atrans", "ARTMAP", "ARTMAPSpec"), ("htrans", "Deep", "DeepSpec"), ("btrans", "Bartmap", "BartmapSpec")]
+
+
+def extra_translators():
+    out = []
+    wired = (LEAN_DIR / "ArtGenProofs.lean").read_text()
+    for mod, gen_name, spec in EXTRA:
+        if f"import ArtGenProofs.{spec}\n" in wired and (LEAN_DIR.parent / "harness" / "artv" / f"{mod}.py").exists():
+            out.append((importlib.import_module(f"artv.{mod}"), gen_name, spec))
+    return out
+
+
+def extra_theorems(mod_name: str) -> list[str]:
+    """THEOREMS of one of the further translators (names relative to Art.GenSpec)"""
+    return list(importlib.import_module(f"artv.{mod_name}").THEOREMS)
 
 
 def gen_prepare(ctx, theorems: list[str], covers: str):
@@ -45,14 +67,23 @@ def gen_prepare(ctx, theorems: list[str], covers: str):
                 ctx.issue("audit", "obligation:FusionSpec:translator",
                           f"the FusionART translator could not translate artlib/fusion/FusionART.py: {msg}")
                 return
+            extras = extra_translators()
+            for tr, gen_name, spec in extras:
+                ok, msg = tr.write(REPO)
+                ctx.log.append(f"{tr.__name__.split('.')[-1]}: {msg}")
+                if not ok:
+                    ctx.issue("audit", f"obligation:{spec}:translator",
+                              f"the translator {tr.__name__.split('.')[-1]} could not translate the source ({tr.COVERS[:160]}): {msg}")
+                    return
             p = subprocess.run(["lake", "build", "ArtGenProofs"], cwd=LEAN_DIR, capture_output=True, text=True)
             if p.returncode != 0:
                 errs = [l for l in (p.stdout + p.stderr).split("\n") if "error" in l][:6]
                 ctx.issue("audit", "obligation:GenSpec:build",
                           "definitions generated from the source are no longer provably equal to the model: " + " | ".join(errs)[:600],
-                          {"generated_files": ["lean/ArtGen/Kernels.lean", "lean/ArtGen/Control.lean", "lean/ArtGen/Fusion.lean"], "errors": errs})
+                          {"generated_files": ["lean/ArtGen/Kernels.lean", "lean/ArtGen/Control.lean", "lean/ArtGen/Fusion.lean"]
+                           + [f"lean/ArtGen/{g}.lean" for _, g, _ in extras], "errors": errs})
                 return
-            src = "import ArtGenProofs.GenSpec\nimport ArtGenProofs.ControlSpec\nimport ArtGenProofs.ControlFit\nimport ArtGenProofs.FusionSpec\n" + "\n".join(f"#print axioms {n}" for n in names) + "\n"
+            src = "import ArtGenProofs\n" + "\n".join(f"#print axioms {n}" for n in names) + "\n"
             tmp = LEAN_DIR / f".audit_gen_{os.getpid()}.lean"
             tmp.write_text(src)
             try:
@@ -76,3 +107,5 @@ def gen_prepare(ctx, theorems: list[str], covers: str):
                 ktrans.write("/repo")      # leave the committed generated files describing /repo
                 ctrans.write("/repo")
                 ftrans.write("/repo")
+                for tr, _, _ in extra_translators():
+                    tr.write("/repo")
